@@ -157,6 +157,8 @@ def check(run):
     check_framing(run)
     from . import C06
     C06.check_always_emits(run, "R02.7")
+    # a head that does not fit is dropped silently by write_int: the declared length of the enclosing map/array is then wrong
+    C06.check_public_writes(run, rename={"R06.2": "R02.8", "R06.3": None})
     tables.check_mandatory(run, analyses, "R02.5")
     tables.check_index_provenance(run, "R02.6")
 
@@ -192,6 +194,54 @@ def member_writes(fn, member):
                 if path(n["e"]) == ("this", member):
                     out.append((i, n["op"], n, g))
     return out
+
+
+
+def _may_write(facts, qn, member, seen=None):
+    """True if a function named qn (any overload), or something it calls on `this`, writes this.<member>."""
+    seen = seen if seen is not None else set()
+    if qn in seen:
+        return False
+    seen.add(qn)
+    for f in facts.fns(qn):
+        if member_writes(f, member):
+            return True
+        for c in ir.calls_in(f["body"]):
+            r = c.get("recv")
+            if (r is None or path(r) == ("this",)) and callee_qn(c) and _may_write(facts, callee_qn(c), member, seen):
+                return True
+    return False
+
+
+def reset_at_exit(fn, member, facts):
+    """Decide `this.<member> == 0 at every normal exit of fn`.  Accepted shapes: a last write `member = 0` that is either
+    unconditional or guarded by exactly `member != 0` (unsigned: `> 0`) - the untaken branch then already has the value 0 -
+    with no later write (direct, or through a call on this object that may write the member) and no earlier return.
+    Returns (verdict, line, text); verdict None = a shape the rule does not understand."""
+    env = Env(fn["body"])
+    leaves = leaf_list(fn, env)
+    ws = member_writes(fn, member)
+    resets = [w for w in ws if w[1] == "=" and const_value(w[2]["rhs"]) == 0]
+    if not resets:
+        return False, fn["line"], "%s is never set to 0" % member
+    last = resets[-1]
+    nz = ("nz", "this.%s" % member)
+    if last[3] != ("T",) and conjuncts(last[3]) != [nz]:
+        return False, last[2]["l"], "%s is reset only under %s: on the other paths it keeps its old value" % (member, show_f(last[3]))
+    for w in ws:
+        if w[0] > last[0] or (w[0] == last[0] and w is not last and w[2].get("l", 0) > last[2].get("l", 0)):
+            return False, w[2]["l"], "%s is written again after the reset" % member
+    for i, (st, g, loops) in enumerate(leaves):
+        if st.get("k") == "Return" and i < last[0]:
+            return False, st.get("l", fn["line"]), "a return precedes the reset of %s" % member
+        if i > last[0]:
+            for c in ir.calls_in(st):
+                r = c.get("recv")
+                if (r is None or path(r) == ("this",)) and callee_qn(c) and _may_write(facts, callee_qn(c), member):
+                    return False, c.get("l", st.get("l", fn["line"])), "%s() may write %s after the reset" % (callee_qn(c).split("::")[-1], member)
+        if loops and i == last[0]:
+            return None, st.get("l", fn["line"]), "the reset of %s sits in a loop" % member
+    return True, last[2]["l"], "%s is 0 at every normal exit (reset %s)" % (member, "unconditionally" if last[3] == ("T",) else "whenever it was non-zero")
 
 
 CNT = ("this", "m_blocks_written")
@@ -287,11 +337,13 @@ def check_framing(run):
         run.ob("R02.3", "%s:order" % tag, ok, rf, rot[0][1]["l"] if rot else rf["line"],
                "export, break, then encoder rotation, unconditionally" if ok else
                "m_encoder.rotate_output(out) must run unconditionally after the optional export and the break")
-        ok = len(wr) == 1 and wr[0][1] == "=" and const_value(wr[0][2]["rhs"]) == 0 and wr[0][3] == ("T",) and \
-            bool(rot) and wr[0][0] > rot[0][0]
-        run.ob("R02.3", "%s:counter-reset" % tag, ok, rf, wr[0][2]["l"] if wr else rf["line"],
-               "m_blocks_written reset to 0 after the encoder rotated" if ok else
-               "m_blocks_written must be set to 0 unconditionally after m_encoder.rotate_output(out)")
+        ok, ln, why = reset_at_exit(rf, "m_blocks_written", facts)
+        if ok:
+            # the break decision has to read the counter before anything clears it
+            early = [w for w in member_writes(rf, "m_blocks_written") if brk and w[0] < brk[0][0] and w[1] == "="]
+            if early:
+                ok, ln, why = False, early[0][2]["l"], "m_blocks_written is overwritten before the closing break is decided"
+        run.ob("R02.3", "%s:counter-reset" % tag, ok, rf, ln, why)
 
     # --- destructor: break iff blocks
     env = Env(dt["body"])
@@ -307,6 +359,9 @@ def check_framing(run):
         if f.get("cls") != EXPORTER:
             continue
         ws = member_writes(f, "m_blocks_written")
+        if f["key"] == dt["key"]:
+            # the object is going away: clearing the counter there changes nothing, counting would
+            ws = [w for w in ws if not (w[1] == "=" and const_value(w[2]["rhs"]) == 0)]
         if ws and f["key"] not in allowed_w:
             run.ob("R02.3", "counter-writer:%s" % short(f["qn"]), False, f, ws[0][2]["l"],
                    "m_blocks_written is written outside write_block(block)/rotate_output")
